@@ -175,4 +175,18 @@ more("C17","VDR.Read must answer as the document handler does for every tampered
 more("C18","A complete custom key-context map, and one that swaps the two Ed25519 suite contexts and shares one context among the other types.")
 more("C19","A node whose algorithm list also names sha1, sha3-*, keccak-256 and blake2b-256; requests in which every hash in turn (outer members and signed payload, re-signed) is a well-formed multihash of such a code.")
 more("C20","The instrumenter records reads and writes of package-level variables of other packages written as pkg.V (this module's or a dependency's).")
+# round 10
+more("C02","The 'signature' Qx||Qx (verifies wherever the digest is taken to be empty) under every allowed algorithm name, 'none', HS256 and no name.")
+more("C07","Deltas with an invalid patch before valid ones and between valid ones.")
+more("C08","Lifecycles whose signers announce an algorithm that is not the curve's own (P-384 as ES256, P-521 as ES256K, P-256 as ES512).")
+more("C09","The second previous-state variant of every case goes through an applier whose parser carries a request-time policy refusing every window.")
+more("C10","JSON patches that append to alsoKnownAs and set it to a list with repeated URIs are part of the alphabet.")
+more("C11","Operations without an op member (with from, path and value), alone, behind and before every copy / move.")
+more("C13","Services whose endpoint, type or id is null; endpoints of other JSON types (observed where the statement is silent).")
+more("C14","Further members with nulls below their top level.")
+more("C15","A zero byte inserted into the signature at the middle, next to it, after the first byte and before both halves; the digest-free signature Qx||Qx under nine algorithm names.")
+more("C16","A nonce-carrying and a plain JWK value of every key type must come back unchanged from VerifySignature, VerifyJWS, GetED25519PublicKey, Validate and the commitment functions; coordinates written as field element plus field prime on all four curves.")
+more("C17","Documents with also-known-as URIs that a URL library would print differently.")
+more("C18","Ed25519 keys in JWK form whose base58 text begins with z, zz and 1, as 2018 and 2020 keys.")
+more("C19","Signatures shaped like a DER SEQUENCE of two INTEGERs, whole and cut at every structural boundary.")
 
